@@ -13,4 +13,15 @@ TEXTS = {
              "extraction + 40-line OCaml driver audited by in-kernel vm_compute; Rust harness.",
         technique="Coq proof by induction (binary-counter invariant = split tree = level-by-level tree) + per-run model/implementation correspondence",
     ),
+    "C14": dict(
+        text="Kernel-checked theorems over the per-field merge policy table that the translator rebuilds from the three `fn merge` bodies on every run: "
+             "the unique-id gate refuses different ids (C14_gate); every field merged by a keeping statement keeps whatever either operand has, at the global map and "
+             "every input/output position (C14_keeps_all), with the complement pinned as the finding class F3 and refuted by witnesses; the xpub key-source "
+             "reconciliation equals its documented algorithm and never panics outside the two known classes F2/F4 (C14_xpub) which are refuted by witnesses; "
+             "order/grouping independence for compatible descendants (C14_commutes, C14_family). Model and crate are run on the same PSETs on every check.",
+        design_ref="DESIGN.md section 6, C14",
+        note="Trusted: Coq kernel; translator (statement recogniser for fn merge bodies; unknown statements are a hard error); hand-written semantics of each "
+             "statement kind; opaque canonical field values; harness listing code; unique id abstract in theorems.",
+        technique="Coq proof generic in the regenerated policy table + per-run model/implementation correspondence",
+    ),
 }
